@@ -258,6 +258,101 @@ fn reconnect_scenario(id_kind: u8, policy: u8) -> Verdict {
     e3::finish(v)
 }
 
+/// A send to peer A is abandoned while A's connection accepts nothing (a timeout around send()),
+/// then the connection recovers. A never disconnected, so later sends addressed to A must be
+/// delivered to A (whole messages only on its wire), and B's traffic is unaffected.
+/// `how`: 0 = abandoned once nothing else can happen, k >= 1 = abandoned after k polls; `big`: 200 kB message.
+fn cancel_scenario(id_kind: u8, how: u8, big: bool, policy: u8) -> Verdict {
+    world::reset(world::WorldCfg { nested_env: false, yields: true, select: false, policy, coop: false });
+    let ida = announced(id_kind, 0);
+    let a = e3::raw_conn("A");
+    let b = e3::raw_conn("B");
+    a.send(&rc::handshake("DEALER", ida.as_deref()));
+    b.send(&rc::handshake("DEALER", Some(b"B")));
+    let sock = AnySocket::new(Ty::Router, None);
+    let obs = std::rc::Rc::new(std::cell::RefCell::new(Vec::<String>::new()));
+    let obs2 = obs.clone();
+    let body = move |i: usize| -> Vec<Vec<u8>> {
+        if big && i == 1 {
+            vec![format!("m{}", i).into_bytes(), rc::pattern(200_000, 9, 0)]
+        } else {
+            vec![format!("m{}", i).into_bytes(), vec![], b"z".to_vec()]
+        }
+    };
+    world::spawn_app("app", async move {
+        let mut sock = sock;
+        let Ok(ida) = e3::attach_raw(sock.backend(), a).await else { return };
+        let Ok(idb) = e3::attach_raw(sock.backend(), b).await else { return };
+        let (ida, idb) = (ida.to_vec(), idb.to_vec());
+        let to = |id: &Vec<u8>, i: usize| -> zeromq::ZmqMessage {
+            let mut m = vec![id.clone()];
+            m.extend(body(i));
+            msg(&m)
+        };
+        let r = sock.send(to(&ida, 0)).await;
+        obs2.borrow_mut().push(format!("warm A -> {}", e3::ok_or_err(&r)));
+        world::set_wmode(a.from_lib, if big { world::WMode::Budget(70_000) } else { world::WMode::Stalled });
+        let fut = sock.send(to(&ida, 1));
+        let r = if how == 0 { world::until_idle(fut).await } else { world::poll_k_then_drop(fut, how as usize).await };
+        obs2.borrow_mut().push(format!("send to stalled A -> {}", r.as_ref().map(|r| e3::ok_or_err(r)).unwrap_or_else(|| "abandoned".into())));
+        let r = sock.send(to(&idb, 2)).await;
+        obs2.borrow_mut().push(format!("send B -> {}", e3::ok_or_err(&r)));
+        world::set_wmode(a.from_lib, world::WMode::Open);
+        for i in 3..6 {
+            let target = if i == 4 { &idb } else { &ida };
+            let r = world::until_idle(sock.send(to(target, i))).await;
+            obs2.borrow_mut().push(format!("send#{} to {} -> {}", i, if i == 4 { "B" } else { "A" }, r.as_ref().map(|r| e3::ok_or_err(r)).unwrap_or_else(|| "pending".into())));
+        }
+        world::set_cond("done");
+        world::wait_cond("never").await;
+        drop(sock);
+    });
+    let end = world::run(e3::HORIZON * 4);
+    let mut v = Verdict::default();
+    v.truncated = end != world::RunEnd::Quiescent;
+    let what = format!("ROUTER with peers A ({}) and B: a {}send to A abandoned {} while A's connection accepts nothing, then it recovers", ["1-byte identity", "255-byte identity", "auto identity"][id_kind as usize], if big { "200 kB " } else { "" }, if how == 0 { "when nothing else can happen".to_string() } else { format!("after {} poll(s)", how) });
+    for p in world::panics() {
+        v.violate("panic", format!("{}: {}", what, p));
+    }
+    let o = obs.borrow().clone();
+    for l in &o {
+        world::log(l.clone());
+    }
+    if world::panics().is_empty() && !v.truncated {
+        if !world::cond("done") {
+            v.violate("abandoned-send/app-stuck", format!("{}: {:?}", what, o));
+        } else {
+            for l in o.iter().filter(|l| l.starts_with("send#") || l.starts_with("send B")) {
+                if !l.ends_with("-> Ok") {
+                    v.violate("abandoned-send/later-send-to-connected-peer-fails", format!("{}: {} (both peers are connected and accept data)", what, l));
+                }
+            }
+            let abandoned = o.iter().any(|l| l.ends_with("abandoned"));
+            for (name, c, want) in [("A", a, vec![0usize, 3, 5]), ("B", b, vec![2usize, 4])] {
+                let t = c.tap();
+                let d = rc::decode_stream(&t, true);
+                if d.error.is_some() || d.consumed != t.len() {
+                    v.violate("abandoned-send/wire-malformed", format!("{}: {}'s wire is malformed or ends inside a message ({:?}; {} of {} bytes parse)", what, name, d.error, d.consumed, t.len()));
+                    continue;
+                }
+                let got = d.messages();
+                let mut want_msgs: Vec<Vec<Vec<u8>>> = want.iter().map(|i| body(*i)).collect();
+                let with_abandoned: Vec<Vec<Vec<u8>>> = if name == "A" { vec![body(0), body(1), body(3), body(5)] } else { want_msgs.clone() };
+                let ok = got == want_msgs || (name == "A" && got == with_abandoned);
+                if !ok && v.violations.is_empty() {
+                    want_msgs.truncate(4);
+                    v.violate(
+                        "abandoned-send/delivery",
+                        format!("{}: {}'s wire carries {:?}; expected messages {:?}{} (abandoned: {})", what, name, got.iter().map(|m| rc::show_frames(&m[..1])).collect::<Vec<_>>(), want, if name == "A" { " with or without the abandoned #1 after #0" } else { "" }, abandoned),
+                    );
+                }
+            }
+        }
+    }
+    v.outcome_hash = rc::fnv(o.join("|").as_bytes());
+    e3::finish(v)
+}
+
 fn pj(p: &Params) -> Value {
     json!({"ids": p.ids, "msgs": p.msgs, "last_peer_leaves": p.last_peer_leaves, "policy": p.policy})
 }
@@ -277,6 +372,10 @@ pub fn run(tier: Tier, replay: Option<String>) -> i32 {
     if let Some(path) = replay {
         let v: Value = serde_json::from_str(&std::fs::read_to_string(&path).expect("read")).expect("json");
         return crate::replay::replay_e3(&v, |p| {
+            if p["scenario"] == "cancel" {
+                let (k, how, big, pol) = (p["id_kind"].as_u64()? as u8, p["how"].as_u64()? as u8, p["big"].as_bool()?, p["policy"].as_u64()? as u8);
+                return Some(std::sync::Arc::new(move || cancel_scenario(k, how, big, pol)) as zvcore::explore::Scenario);
+            }
             if p["scenario"] == "reconnect" {
                 let (k, pol) = (p["id_kind"].as_u64()? as u8, p["policy"].as_u64()? as u8);
                 return Some(std::sync::Arc::new(move || reconnect_scenario(k, pol)) as zvcore::explore::Scenario);
@@ -305,13 +404,28 @@ pub fn run(tier: Tier, replay: Option<String>) -> i32 {
             jobs.push(e3::job(format!("C09/reconnect/id{}/policy{}", id_kind, policy), json!({"scenario":"reconnect","id_kind":id_kind,"policy":policy}), tier.pick(2, 3), tier.pick(300_000, 3_000_000), move || reconnect_scenario(id_kind, policy)));
         }
     }
+    for id_kind in 0..3u8 {
+        for how in 0..=tier.pick(2u8, 4u8) {
+            for big in [false, true] {
+                for policy in 0..3u8 {
+                    jobs.push(e3::job(
+                        format!("C09/cancel/id{}/how{}/big{}/policy{}", id_kind, how, big, policy),
+                        json!({"scenario":"cancel","id_kind":id_kind,"how":how,"big":big,"policy":policy}),
+                        if big { tier.pick(1, 2) } else { tier.pick(2, 3) },
+                        300_000,
+                        move || cancel_scenario(id_kind, how, big, policy),
+                    ));
+                }
+            }
+        }
+    }
     e3::run_jobs_into(&mut ck, jobs, false);
     let ex = ck.coverage.get("e3_executions").and_then(|v| v.as_u64()).unwrap_or(0);
     ck.cov("states", ck.coverage.get("e3_distinct_outcomes").and_then(|v| v.as_u64()).unwrap_or(0).max(1));
     ck.cov("transitions", ex);
     ck.cov("traces_validated_against_impl", ex);
     ck.cov("exhaustive", ck.coverage.get("e3_scenarios_capped").and_then(|v| v.as_u64()) == Some(0));
-    ck.cov("explanation", "ROUTER socket with 1-3 raw peers whose identities are announced (1 byte / 255 bytes) or auto-assigned, each sending 2 multipart messages (one starting with an empty frame); every schedule within the deviation bound over attach order, delivery order, yield points and deliveries landing inside pipe reads, from 3 default policies. Oracle: the first frame of every recv result is the identity returned by that connection's attach (the announced one when present, else a unique 16-byte value) and the remaining frames are the reference decode of what that peer wrote, per peer in order; then a send to each identity must appear, minus its first frame, on exactly that peer's wire and on no other; unknown identities must fail with no wire growing; a peer that has closed must not cause bytes on any other wire. Reconnect family: a peer with an announced identity leaves and a new connection announces the same identity while the application is not inside recv: the send for that identity must reach the new connection and nothing the stale one. states = distinct observed outcomes; transitions = executions.");
+    ck.cov("explanation", "ROUTER socket with 1-3 raw peers whose identities are announced (1 byte / 255 bytes) or auto-assigned, each sending 2 multipart messages (one starting with an empty frame); every schedule within the deviation bound over attach order, delivery order, yield points and deliveries landing inside pipe reads, from 3 default policies. Oracle: the first frame of every recv result is the identity returned by that connection's attach (the announced one when present, else a unique 16-byte value) and the remaining frames are the reference decode of what that peer wrote, per peer in order; then a send to each identity must appear, minus its first frame, on exactly that peer's wire and on no other; unknown identities must fail with no wire growing; a peer that has closed must not cause bytes on any other wire. Reconnect family: a peer with an announced identity leaves and a new connection announces the same identity while the application is not inside recv: the send for that identity must reach the new connection and nothing the stale one. Abandoned-send family: a send to A is dropped while A's connection accepts nothing (once nothing else can happen, or after 1..2 (thorough 4) polls; short and 200 kB messages), then the connection recovers: later sends to A and B must succeed and arrive whole, in order, on exactly the addressed peer's wire. states = distinct observed outcomes; transitions = executions.");
     ck.assume("single-frame ROUTER sends are outside the statement and not issued");
     ck.conclude()
 }
